@@ -89,5 +89,4 @@ func cmdManifest() int {
 }
 
 var notApplicable = map[string]string{
-	"C10": "exact decimal<->binary conversion and integer bounds are arithmetic over 2^64 values (strconv plus a hand-rolled overflow test); no structural necessary condition exists beyond what C04/CODEC-1 already checks; deciding it needs evaluation or a solver, i.e. another technique family",
 }
